@@ -43,6 +43,10 @@ pub struct Seed {
     /// format-specific selector (DBC schema number, WDT version index, BLP externals, ...)
     pub aux: u32,
     pub extra: Vec<Vec<u8>>,
+    /// thorough-only seed whose header layout repeats that of a primary seed (another version / content
+    /// variant of the same writer): takes part in every 0/1-deviation class, but its all-pairs class is
+    /// bounded by fewer header-level sites
+    pub tier2: bool,
 }
 
 pub const VALS: [&str; 10] = ["0", "1", "2^31-1", "2^31", "2^32-1", "field-1", "field+1", "file_len", "file_len-1", "file_len+1"];
@@ -507,6 +511,7 @@ pub fn encode_seeds(v: &[Seed]) -> Vec<u8> {
         put_bytes(&mut o, s.name.as_bytes());
         put_bytes(&mut o, &s.bytes);
         put_u64(&mut o, s.aux as u64);
+        put_u64(&mut o, s.tier2 as u64);
         put_u64(&mut o, s.sites.len() as u64);
         for x in &s.sites {
             put_u64(&mut o, x.off as u64);
@@ -540,6 +545,7 @@ pub fn decode_seeds(b: &[u8]) -> Vec<Seed> {
     let mut v = vec![];
     for _ in 0..n {
         let mut s = Seed { fmt: r.string(), name: r.string(), bytes: r.bytes(), aux: r.u64() as u32, ..Default::default() };
+        s.tier2 = r.u64() != 0;
         for _ in 0..r.u64() {
             let off = r.u64() as usize;
             let name = r.string();
